@@ -16,10 +16,17 @@ var nowTime = time.Now
 // This installs a hook into the login process so that the
 // LastAction is recorded immediately.
 func Setup(ab *authboss.Authboss) error {
-	ab.Events.After(authboss.EventAuth, func(w http.ResponseWriter, r *http.Request, handled bool) (bool, error) {
+	refresh := func(w http.ResponseWriter, r *http.Request, handled bool) (bool, error) {
 		refreshExpiry(w)
 		return false, nil
-	})
+	}
+
+	ab.Events.After(authboss.EventAuth, refresh)
+	// The OAuth2 callback and the login that follows a registration create a
+	// session without firing EventAuth. Without a LastAction such a session
+	// only starts its idle clock at the next request, however late that is.
+	ab.Events.After(authboss.EventOAuth2, refresh)
+	ab.Events.After(authboss.EventRegister, refresh)
 
 	return nil
 }
